@@ -112,9 +112,11 @@ impl TryFrom<Config> for frame::Settings {
             }
         }
 
+        // Setting values are variable-length integers: a configured limit beyond their range is
+        // as good as unlimited and is advertised as the largest representable value.
         settings.insert(
             frame::SettingId::MAX_HEADER_LIST_SIZE,
-            max_field_section_size,
+            max_field_section_size.min(VarInt::MAX.0),
         )?;
         settings.insert(
             frame::SettingId::ENABLE_CONNECT_PROTOCOL,
@@ -127,7 +129,7 @@ impl TryFrom<Config> for frame::Settings {
         settings.insert(frame::SettingId::H3_DATAGRAM, enable_datagram as u64)?;
         settings.insert(
             frame::SettingId::WEBTRANSPORT_MAX_SESSIONS,
-            max_webtransport_sessions,
+            max_webtransport_sessions.min(VarInt::MAX.0),
         )?;
 
         Ok(settings)
